@@ -97,3 +97,23 @@ func CamelToKebab(s string) string {
 	}
 	return b.String()
 }
+
+// htmlSpace is HTML's whitespace: space, tab, line feed, form feed and carriage return.
+// Unlike strings.TrimSpace and unicode.IsSpace it does not include U+00A0 (&nbsp;),
+// U+2003 (&emsp;) and the other Unicode spaces: in a document those are content.
+const htmlSpace = " \t\n\f\r"
+
+// IsHTMLSpace reports whether r is one of HTML's whitespace characters.
+func IsHTMLSpace(r rune) bool {
+	return r == ' ' || r == '\t' || r == '\n' || r == '\f' || r == '\r'
+}
+
+// TrimHTMLSpace removes HTML whitespace from both ends of s.
+func TrimHTMLSpace(s string) string {
+	return strings.Trim(s, htmlSpace)
+}
+
+// IsHTMLBlank reports whether s consists of HTML whitespace only.
+func IsHTMLBlank(s string) bool {
+	return TrimHTMLSpace(s) == ""
+}
